@@ -12,24 +12,24 @@ import props  # noqa: E402
 VERIF = os.path.dirname(os.path.dirname(os.path.abspath(__file__)))
 
 LEVEL = {
- "C01": ("theorems: tokenizer inverts any padded rendering, unquote/quote, dispatch by prefix, assembly of segments for all item lists, every well-formed value is the parse of its canonical text (C01_canonical_text) and of every other presentation reachable by the closure of the presentation changes (C01_styled_text); durations/floats enter as decidable hypotheses; correspondence: impl = extracted model = generator's RFC-level expectation on structured playlists", "3 (C01)"),
+ "C01": ("theorems: tokenizer inverts any padded rendering, unquote/quote, dispatch by prefix, assembly of segments for all item lists, every well-formed value is the parse of its canonical text (C01_canonical_text) and of every other presentation reachable by the closure of the presentation changes (C01_styled_text); a decimal duration with at most nine fractional digits below 2^20 s is read to exactly its nanosecond count (C01_duration_exact); near-miss tag names are unknown tags (C01_near_miss_names); correspondence: impl = extracted model = generator's RFC-level expectation on structured playlists", "3 (C01)"),
  "C02": ('theorems: source order, shared lexical layer, enum tables regenerated from source, canonical text and every other presentation of a well-formed master value parse to it (C02_canonical_text, C02_styled_text); correspondence against an independent expectation over structured master playlists', "3 (C02)"),
- "C03": ("theorems on the writer/reader key-state duality at item level and value round trips; correspondence + direct oracle (dump and text fixed point) over exhaustive key histories and random playlists", "3 (C03)"),
+ "C03": ("theorems on the writer/reader key-state duality at item level, the text-level round trip for every well-formed parse result (C03_roundtrip), and the float / duration parts of well-formedness for everything the reader accepts (C03_float_hypotheses); correspondence + direct oracle (dump and text fixed point) over exhaustive key histories and random playlists", "3 (C03)"),
  "C04": ("theorems: master writer has no state; value round trips (integers, enums); correspondence + direct oracle over structured master playlists", "3 (C04)"),
  "C05": ('theorems: no entry point of the model yields Panic for any string; the index-level model of the tokenizer / unquote / tag (byte offsets, panicking slices, checked subtraction) refines the structural model for every string (C05_tokenizer_indices, C05_unquote_slice, C05_tag_split); tokenizer progress; correspondence on returned/panicked over near-valid, boundary and random inputs; stress inputs each in its own process of an unoptimised build; time scaling measured in the thorough tier (partial)', "3 (C05)"),
  "C06": ("theorem: the parser's key list after any history is exactly the RFC 8216 4.3.2.4 keys in effect, one per format, in tag order; segment/map snapshots; correspondence + independent oracle, exhaustive to a bound", "3 (C06)"),
  "C07": ('theorems: numbers = media sequence + position for every accepted item list, IV rule, explicit IV verbatim, 128-bit big-endian round trip, writer strips derived IVs; correspondence + oracle incl. the re-parse of the written text and builders that were used before / carry preset values', "3 (C07)"),
  "C08": ("theorems: validation accepts iff the chain resolves; completed ranges equal the resolved ones; set_start never panics; correspondence + oracle incl. exhaustive chains", "3 (C08)"),
- "C09": ('theorems: rounding is nearest-second-halves-up; validation iff rule; no accepted value holds a longer segment; correspondence on text and builder paths at every boundary, inside otherwise valid playlists of the full domain, with sub-second allowances, preset builders and durations set through setters', "3 (C09)"),
+ "C09": ('theorems: rounding is nearest-second-halves-up; validation iff rule; no accepted value holds a longer segment; the x.5 boundary on the decimal text is not moved by the f64 conversion (C09_text_boundary); correspondence on text and builder paths at every boundary, inside otherwise valid playlists of the full domain, with sub-second allowances, preset builders and durations set through setters', "3 (C09)"),
  "C10": ('theorems: version line written iff required version != 1 and carries it; required version is the maximum of the per-feature versions read from the regenerated constants, hence >= every section-7 feature minimum; correspondence + independent text scan, also of values mutated through the public segment vector', "3 (C10)"),
  "C11": ("theorems: the parser's key container is order-free of any hash seed (ordered list), and the writer's output does not depend on the iteration order of its key set; runtime repetition across threads and processes in the harness (partial: schedules cannot be exhibited by the model)", "3 (C11)"),
  "C12": ("theorems on arbitrary text and as ONE theorem over whole playlists: the closure of the presentation changes on the cleaned lines (comments, redundant version tags, any spelling of a tag's attribute list for every attribute-list tag incl. METHOD=NONE keys and both variant tags, permuted free tags; CRLF / blank lines / padding do not change the cleaned lines) leaves the parse result unchanged (C12_restyle_media/master, C12_restyle_rules, C12_restyle_attribute_lines, C12_restyle_variant_lines); correspondence + oracle over re-rendered and transformed texts, foreign attribute names, and == of the parsed values", "3 (C12)"),
  "C13": ('theorem: validation accepts iff the playlist is consistent (groups defined, CLOSED-CAPTIONS=NONE exclusive in either order, session data unique); rendition lookup = referenced renditions except the stated known class; correspondence exhaustive over small configurations, size sweeps, and MasterPlaylistBuilder call sequences', "3 (C13)"),
  "C14": ("theorems: per-tag acceptance equals the attribute rules over all attribute lists for the tags modelled; correspondence exhaustive over presence subsets for text and builders", "3 (C14)"),
  "C15": ("theorem: for every string, not both parsers accept; accepted master texts contain no media item or bare URI, accepted media texts no master item and a TARGETDURATION item; foreign-tag tables regenerated from source; correspondence exhaustive over short line sequences", "3 (C15)"),
- "C16": ("theorems: accepted extension keeps the common segments (numbers and content); appending lines appends items; a text cut after a segment tag or after EXT-X-STREAM-INF is rejected; correspondence + oracle over every prefix and slide", "3 (C16)"),
+ "C16": ("theorems: accepted extension keeps the common segments (numbers and content); appending lines appends items; a text cut after a segment tag (also with non-URI lines behind it: C16_cut_pending) or after EXT-X-STREAM-INF is rejected; correspondence + oracle over every prefix and slide, incl. deterministic rotations of three / four key formats", "3 (C16)"),
  "C17": ('theorem over the regenerated table: every hand-written into_owned rebuilds each declared field from the field of the same name and variant; the three entry points are one function in the model; correspondence: ==, dump and text of x, clone, into_owned for parsed values, for playlists built by builder call sequences and for values built through the public constructors', "3 (C17)"),
- "C18": ('theorems: integer / hex / byte range / resolution / channels round trips, enum tables injective (regenerated), quote/unquote, every tag type written and read back through its own parser; float hypotheses decided on bounded decimal grids (C18_duration_ms_sweep, C18_frame_rate_sweep, C18_time_offset_sweep), the modelled rounding depends on the value only and fixes representable values (C18_rounding_by_value, C18_representable_exact); the unbounded float statements stay hypotheses (partial); correspondence with per-type expectations and API-built values', "3 (C18)"),
+ "C18": ('theorems: integer / hex / byte range / resolution / channels round trips, enum tables injective (regenerated), quote/unquote, every tag type written and read back through its own parser; parse (print x) = x for EVERY finite f32 of either sign and for every Duration below 2^20 s with nanosecond precision (C18_f32_text, C18_uf32_text, C18_parsed_float, C18_duration_text: rounding near a canonical value, the digit search always returns digits, the written text is read as those digits), bounded decimal grids kept as sweeps; only the three-decimal FRAME-RATE writer stays a decidable hypothesis; the std float conversions themselves are modelled (validated against rustc), not verified; correspondence with per-type expectations and API-built values', "3 (C18)"),
  "C19": ("theorems: the modelled equality/ordering/hash of KeyFormatVersions (buffer + length) and of the float wrappers are coherent; derived impls are structural; every public type's derive list regenerated and checked; correspondence: laws on triples of the implementation incl. API-built values (Number IVs, KeyFormat::Other, stale buffers, built segments)", "3 (C19)"),
  "C20": ("theorems: setters commute / last wins, built playlists gap-free with documented numbering, no builder call sequence panics (also with the vector's capacity in the model: C20_slots_never_panic, reserve-before-insert regenerated from the source), parser and builder share build(), rebuild / paths agree; correspondence: media and master builder scripts vs rendered text", "3 (C20)"),
 }
